@@ -10,7 +10,8 @@ def targeted(ctx, n):
     rng = random.Random(ctx.seed * 32452843 + 7)
     hs = []
     anns = [{"ssl-passthrough": "true"}, {"auth-secret": "basic"}, {"auth-secret": "missing"}, {"auth-url": "http://10.0.0.9:8000/auth"},
-            {"auth-url": "svc://auth:8080/x"}, {"auth-url": "svc://nosuch:8080/x"}, {"oauth": "oauth2_proxy"}, {"strict-host": "true"},
+            {"auth-url": "svc://auth:8080/x"}, {"auth-url": "svc://nosuch:8080/x"}, {"auth-url": "http://10.0.0.8:8000/a"},
+            {"auth-url": "http://10.0.0.7:8000/a"}, {"auth-url": "svc://auth2:8080/x"}, {"oauth": "oauth2_proxy"}, {"strict-host": "true"},
             {"auth-tls-secret": "ca"}, {"auth-tls-secret": "missing"}, {"secure-backends": "true", "secure-crt-secret": "c1"},
             {"secure-verify-ca-secret": "ca"}, {"blue-green-deploy": "group=blue=1,group=green=2"}, {"affinity": "cookie"},
             {"assign-backend-server-id": "true"}, {"backend-server-naming": "pod"}, {"backend-server-naming": "ip"},
@@ -30,6 +31,32 @@ def targeted(ctx, n):
                 st["ops"].append(U.op_eps(rng.choice(["s1", "s2"]), "e0"))
         c05.c01_fix(h)
         hs.append(h)
+    # auth-proxy churn: several auth targets, the services behind them change, new targets arrive later
+    urls = ["svc://auth:8080/x", "svc://auth2:8080/x", "http://10.0.0.8:8000/a", "http://10.0.0.7:8000/a", "http://10.0.0.6:8000/a"]
+    for i in range(n // 3):
+        first = U.base_ops() + [U.op_svc("auth"), U.op_eps("auth", "e1"), U.op_svc("auth2"), U.op_eps("auth2", "e2"),
+                                U.op_sec("basic", "auth:usr:pwd")]
+        steps = [dict(ops=first + [U.op_ing(1, "t1", {"auth-url": rng.choice(urls)}), U.op_ing(2, "t9", {"auth-url": rng.choice(urls)})])]
+        for k in range(3 + rng.randrange(3)):
+            r = rng.random()
+            if r < 0.35:
+                ops = [U.op_eps(rng.choice(["auth", "auth2"]), rng.choice(["e1", "e2", "e4"]))]
+            elif r < 0.5:
+                ops = [U.op_svc(rng.choice(["auth", "auth2"]), ann={"maxconn-server": str(rng.randrange(9))})]
+            elif r < 0.85:
+                ops = [U.op_ing(rng.choice([1, 2, 3]), rng.choice(["t1", "t9", "t2", "t12"]), {"auth-url": rng.choice(urls)})]
+            else:
+                ops = [U.op_del("ing", "d/i%d" % rng.choice([1, 2, 3]))]
+            steps.append(dict(ops=ops))
+        hs.append(dict(id="ap-%d" % i, opt=dict(shards=0, watchwithoutclass=True), steps=steps))
+    # one basic-auth secret shared by unrelated backends, then the secret goes away or loses its content
+    for i in range(n // 4):
+        a, b = rng.sample([("t1", 1), ("t9", 2), ("t2", 3), ("t12", 2)], 2)
+        steps = [dict(ops=U.base_ops() + [U.op_sec("basic", "auth:usr:pwd"), U.op_ing(a[1], a[0], {"auth-secret": "basic"})]),
+                 dict(ops=[U.op_ing(b[1] if b[1] != a[1] else 3, b[0], {"auth-secret": "basic"})]),
+                 dict(ops=[U.op_sec("basic", rng.choice(["absent", "empty", "auth:other:pwd"]))]),
+                 dict(ops=[U.op_eps("s1", "e2")])]
+        hs.append(dict(id="ul-%d" % i, opt=dict(shards=0, watchwithoutclass=True), steps=steps))
     return hs
 
 
